@@ -139,6 +139,62 @@ Theorem c01_reading_v0_old_spellings :
 Proof. exact reading_v0_agrees_on_old_spellings. Qed.
 Print Assumptions c01_reading_v0_old_spellings.
 
+(* ---- round 5: a Response with several assertions -------------------------------------------------------------
+   A Response carries a LIST of assertions (any number, plain and encrypted in any document order, each with its own
+   Issuer and signature).  Identity iff the list is admitted by the receiver's number rule and every signature present
+   on the Response or on ANY assertion verifies and the demanded signatures are carried - by EVERY assertion where
+   assertions are to be signed.  Model.parse_mmsg follows parse_assertion check by check (plain assertions, then the
+   signatures of all decrypted assertions, then their remaining checks; the first failure decides the exception and
+   so the second pass of _parse_response). *)
+Theorem c01_multi : forall c mm, spec_mm c mm (parse_mmsg c mm).
+Proof. exact policy_holds_mm. Qed.
+Print Assumptions c01_multi.
+
+Theorem c01_spec_multi_reflect : forall c mm i, spec_mm_b c mm i = true <-> spec_mm c mm i.
+Proof. exact spec_mm_b_iff. Qed.
+Print Assumptions c01_spec_multi_reflect.
+
+(* the walk over the assertions in closed form: the number rule, and the verdict of the earlier rounds on the Response
+   taken together with every single one of its assertions *)
+Theorem c01_multi_decomposition :
+  forall c mm, parse_mmsg c mm = count_ok (mm_asl mm) && forallb (fun x => parse_message c (as_msg mm x)) (mm_asl mm).
+Proof. exact decomposition. Qed.
+Print Assumptions c01_multi_decomposition.
+
+(* whatever the options: no identity unless the signature of EVERY assertion that carries one verifies - the second
+   encrypted assertion as much as the first *)
+Theorem c01_multi_every_assertion_verified :
+  forall c mm, parse_mmsg c mm = true -> forall x, In x (mm_asl mm) -> x_sig x <> None -> x_state c x = Valid.
+Proof. exact identity_needs_every_assertion. Qed.
+Print Assumptions c01_multi_every_assertion_verified.
+
+(* the document order of the assertions is irrelevant for the verdict *)
+Theorem c01_multi_order_irrelevant :
+  forall c mm l l', Permutation.Permutation l l' -> parse_mmsg c (with_assertions mm l) = parse_mmsg c (with_assertions mm l').
+Proof. exact order_irrelevant. Qed.
+Print Assumptions c01_multi_order_irrelevant.
+
+(* the messages, sequences and clients of the earlier rounds are the instance "one assertion per Response" *)
+Theorem c01_multi_embed :
+  forall c m, parse_mmsg c (embed m) = parse_message c m /\ forall i, spec_mm_b c (embed m) i = spec_m_b c m i.
+Proof. intros c m. split; [apply parse_mmsg_embed | intros i; apply spec_mm_b_embed]. Qed.
+Print Assumptions c01_multi_embed.
+
+Theorem c01_multi_client_embed :
+  forall k ms, client_run_mm k (map embed ms) = client_run k ms
+               /\ forall ids, spec_client_mm_b k (map embed ms) ids = spec_client_b k ms ids.
+Proof. intros k ms. split; [apply client_run_embed | intros ids; apply spec_client_mm_b_embed]. Qed.
+Print Assumptions c01_multi_client_embed.
+
+(* every client (round 4), every sequence of such Responses *)
+Theorem c01_multi_client : forall k ms, spec_client_mm k ms (client_run_mm k ms).
+Proof. exact client_holds_mm. Qed.
+Print Assumptions c01_multi_client.
+
+Theorem c01_spec_multi_client_reflect : forall k ms ids, spec_client_mm_b k ms ids = true <-> spec_client_mm k ms ids.
+Proof. exact spec_client_mm_b_iff. Qed.
+Print Assumptions c01_spec_multi_client_reflect.
+
 (* ---- source tie, translator v2: the functions below are re-translated from the source text of /repo on every
    run (coq/gen/C01Src2.v, C01Src2p.v); each theorem says that the translated function, applied to the encoded
    model input, yields the encoded output of the model function it mirrors (proofs: C01/Source2.v) ---- *)
